@@ -451,7 +451,7 @@ pub fn property() -> Property {
         id: "C12",
         rule: "Lines are built from segments tagged by construction as free (keywords, identifiers over the full alphabet incl. SCORE/TOTAL/FORK/NOTE/XTHEN and random 1-3 letter names, numerals incl. .5 / 007 / '1 2', tight digit-letter-sign-digit runs such as 2E3 / 5e-3 / 1.d+2, proper prefixes and suffixes of keywords in any case glued to a following keyword (NOTHEN, noThen, xTOgoto), one- and two-character operators incl. spaced ones, punctuation, quotes, blanks), protected (string interiors, REM tails, unterminated-string rests) or DATA items (quoted / bare / numeric). Per base line the check applies: all blanks removed; a blank / tab / three blanks at every free gap; each gap individually; all 2^k gap subsets when k <= 8 (random subsets otherwise); all-lower, all-upper, each single letter flipped, random flips. Oracle: the token sequence (or, for untokenizable bases, the error kind and the tokens before it) through the tokenizer hook is identical for every variant, and LIST of `10 <variant>` equals LIST of `10 <base>`. Each variant is one evaluation. Non-trivial: base with >= 4 tokens containing a keyword-bearing identifier, two-character operator, spaced numeral or DATA, and at least one variant whose bytes differ; distinct by base text. Lines whose free text accidentally spells REM or DATA are excluded (counted).",
         assumptions: vec!["the protected map comes from the generator's construction, not from the tokenizer; the exclusion rule guards the one way it could be wrong"],
-        fuzz: Some(FuzzSpec { target: "c12_perturb", runs: 300_000, max_len: 96, verdict: crate::fuzz::c12_verdict }),
+        fuzz: Some(FuzzSpec { target: "c12_perturb", runs: 120_000, max_len: 96, verdict: crate::fuzz::c12_verdict }),
         families,
         prelude: None,
         epilogue: None,
